@@ -93,6 +93,9 @@ def field_types(refname=None):
 
 
 TAGGINGS = {"external": "", "internal": '#[serde(tag = "t")]', "adjacent": '#[serde(tag = "t", content = "c")]', "untagged": "#[serde(untagged)]"}
+# adjacent tagging under other (tag, content) names: the tag sorting before the content name, after it, and names needing no re-casing
+EXTRA_TAGGINGS = {"adjacent_kv": '#[serde(tag = "kind", content = "value")]', "adjacent_ab": '#[serde(tag = "a", content = "b")]',
+                  "adjacent_za": '#[serde(tag = "z", content = "a")]', "internal_kind": '#[serde(tag = "kind")]'}
 RENAME_ALL = ["camelCase", "SCREAMING_SNAKE_CASE", "kebab-case"]
 
 
@@ -106,8 +109,8 @@ class TypeDef:
         lines = list(getattr(self, "extra_items", []))
         lines.append("#[derive(Serialize, Deserialize, JsonSchema, PartialEq, Debug, Clone)]")
         cattrs = list(self.attrs)
-        if self.kind == "enum" and TAGGINGS[self.tagging]:
-            lines.append(TAGGINGS[self.tagging])
+        if self.kind == "enum" and dict(TAGGINGS, **EXTRA_TAGGINGS)[self.tagging]:
+            lines.append(dict(TAGGINGS, **EXTRA_TAGGINGS)[self.tagging])
         for a in cattrs:
             lines.append("#[serde(%s)]" % a)
         if self.kind == "struct":
@@ -275,6 +278,11 @@ def universes(tier):
                     if any(k == "struct" for k in ks):
                         t4 = TypeDef(nm(), "enum", variants=[dict(v) for v in vs], tagging=tagging, attrs=["deny_unknown_fields"])
                         add(t4, desc="enum:%s[%s]{deny}" % (tagging, ",".join(ks)))
+    for tagging in EXTRA_TAGGINGS:
+        vs = [{"name": "Empty", "kind": "unit"}, {"name": "Rect", "kind": "struct", "fields": [{"name": "w", "ty": "i32"}, {"name": "label", "ty": "String"}]}]
+        if not tagging.startswith("internal"):
+            vs += [{"name": "Circle", "kind": "newtype", "tys": ["i32"]}, {"name": "Pair", "kind": "tuple", "tys": ["i32", "bool"]}]
+        add(TypeDef(nm(), "enum", variants=vs, tagging=tagging), desc="enum:%s[unit,struct%s]" % (tagging, "" if tagging.startswith("internal") else ",newtype,tuple"))
     # member-less struct variants (`Resume {}`): schemars writes an object schema with no properties (closed under deny_unknown_fields)
     for tagging in TAGGINGS:
         for deny in (False, True):
